@@ -8,6 +8,7 @@ Definition dup (f : nat) : violation :=
    ("message", VStr "Duplicate code (3 lines, 4 occurrences)"); ("severity", VEnum "Severity" "ERROR"); ("suggestion", VNone)].
 Definition w_report (ev : list nat) : list violation := match ev with [] => [] | _ => map dup ev end.
 Definition all_seen (f : nat) : bool := true.
+Definition none_seen (f : nat) : bool := false.
 
 (* ---- repaired: regression theorems on the old witnesses ---- *)
 (* old witness of q_par_crossfile_lost (corpus dry_4files_2workers): the worker pool is used and the duplicates are reported *)
@@ -25,3 +26,11 @@ Theorem errors_regression :
   /\ exit_code (FStartsWith "dry.", 1, 0) (par_run nat nat (fun _ => None) (fun f => f) (fun _ => []) all_seen orchpar_actual (Some 1) 16 [1;0] [0;1]) = 2
   /\ swallows orchpar_actual = false.
 Proof. repeat split; reflexivity. Qed.
+
+(* old witness of q_parent_evidence_raw_path (corpus dry_under_build_abs_2workers): the raw-path test would let no file
+   through, but the parent loop now uses lint_file's test, so the table is not consulted and the duplicates are reported *)
+Theorem parent_evidence_regression :
+  par_run nat nat (fun _ => Some []) (fun f => f) w_report none_seen orchpar_actual (Some 2) 16 [3;1;0;2] [0;1;2;3]
+  = seq_run nat nat (fun _ => Some []) (fun f => f) w_report [0;1;2;3]
+  /\ parent_restricts orchpar_actual = false.
+Proof. split; reflexivity. Qed.
